@@ -89,6 +89,9 @@ def build_script(cmds, fail=None, uniq="", mode="fail"):
             if fail and mode == "pair":
                 out.append("wrap fail %s %d" % fail[:2])
                 out.append("wrap fail %s %d" % fail[2:])
+            elif fail and mode == "failrand":
+                out.append("wrap failrand %d %d" % fail)
+                out.append("wrap forcemove 0")
             elif fail:
                 out.append("wrap %s %s %d" % ((mode,) + tuple(fail)))
                 out.append("wrap forcemove 0")
@@ -145,15 +148,25 @@ def run(tier):
                     for k2 in (range(1, t2 + 1) if full else (1,)):
                         jobs.append((n, "pair", (s1, k1, s2, k2)))
 
+    # random fault schedules (thorough): every wrapped call after the arming point is refused with probability 2%, 10% or 30%
+    if full:
+        rr = common.rng("c17")
+        for n in names:
+            if n in counts:
+                for k in range(150):
+                    jobs.append((n, "failrand", (rr.randrange(1, 10**9), rr.choice([20, 100, 300]))))
+
     def uniq(mode, f):
         return ".%s.%s" % (mode, "-".join(str(x) for x in f))
     res = common.run_cases(binary, [build_script(S[n], f, uniq(mode, f), mode) for (n, mode, f) in jobs], tag="c17f")
-    stats = {"scenarios": len(names), "failpoints": len(jobs), "fired": 0, "not_reached": 0, "per_mode": {"fail": 0, "failfrom": 0, "pair": 0}, "per_symbol": {s: 0 for s in SYMS},
+    stats = {"scenarios": len(names), "failpoints": len(jobs), "fired": 0, "not_reached": 0, "per_mode": {"fail": 0, "failfrom": 0, "pair": 0, "failrand": 0}, "per_symbol": {s: 0 for s in SYMS},
              "calls_per_scenario": {n: {s: counts[n][s] - pre[n][s] for s in SYMS if counts[n][s] - pre[n][s]} for n in counts}}
     for (n, mode, f), r in zip(jobs, res):
         v.count()
         s, k = f[0], f[1]
         syms = [f[0]] if mode != "pair" else [f[0], f[2]]
+        if mode == "failrand":
+            s, syms = "random", list(SYMS)
         case = {"key": "%s %s %s" % (n, mode, " ".join("%s#%d" % (f[i], f[i + 1]) for i in range(0, len(f), 2))), "fam": "fault", "scenario": n, "sym": s, "k": k, "mode": mode}
         if r["crash"]:
             v.violation(case, r["crash"]["sig"], (r["crash"]["what"] + "\n" + r["crash"]["stderr"][-1200:]))
@@ -161,7 +174,10 @@ def run(tier):
         recs = r["records"]
         w = recs[-1]
         inj = {x: int(w.split(" %s=" % x)[1].split("/")[1].split()[0]) for x in syms}
-        if mode != "pair" and inj[s] < 1:
+        if mode == "failrand":
+            if not any(inj.values()):
+                stats["random_schedules_without_fault"] = stats.get("random_schedules_without_fault", 0) + 1
+        elif mode != "pair" and inj[s] < 1:
             v.inconclusive.append({"why": "failpoint did not fire", "case": case["key"], "report": w})
             continue
         if mode == "pair" and not (inj[f[0]] or inj[f[2]]):
@@ -269,7 +285,7 @@ def run(tier):
     v.cov["rule"] = ("fault enumeration: for each of {N} API scenarios (create on internal/caller buffer; 20 kB assembly with 3 growths in plain / fitting / counting mode; a 200 kB assembly in ten calls (about 33 growths) that continues after the refused growth; file and file-counting assembly of a 3-page file, "
                      "on a caller buffer, twice, of an empty file, with growth of the code buffer during the file call, with short and interrupted reads, of a file longer than its stat size; "
                      "binary output to a file (nothing assembled, over an existing longer file, twice, 20 kB) and to /dev/full; fail-then-continue-then-bin) a counting run records how often each of {SYMS} is called after the arming "
-                     "point (operations the library does not call have no failpoints), then one run per (operation, k) refuses exactly that call, one run refuses that call and all later ones, and runs with two refusals of different operations (quick: first calls; thorough: all pairs). Checked: no crash/sanitizer report, the failure is reported by NULL/EXIT_FAILURE (munmap: no crash only), "
+                     "point (operations the library does not call have no failpoints), then one run per (operation, k) refuses exactly that call, one run refuses that call and all later ones, and runs with two refusals of different operations (quick: first calls; thorough: all pairs, plus 150 random fault schedules per scenario in which every call is refused with probability 2 / 10 / 30 %). Checked: no crash/sanitizer report, the failure is reported by NULL/EXIT_FAILURE (munmap: no crash only), "
                      "[0,300) assembled earlier is intact, the instance can be destroyed, bin EXIT_SUCCESS only with a complete file").format(N=len(names), SYMS=", ".join(SYMS))
     v.cov["exhaustive"] = True
     v.cov.update(stats)
